@@ -15,6 +15,22 @@ def run():
                                    ",".join(sorted(set(tag.split(':')[1].split(',')))))
     ck.cov["bodies"] = st
     nontrivial = sum(1 for (tag, _), r in zip(fam, res.values()) if "defer" in tag and r["status"] == "ok")
+    # a body whose defers are pending while ANOTHER program is evaluated from inside it (invite! runs in the caller's scope, eval / import / a chain
+    # step in scopes of their own): the pending defers still wait for the end of THEIR body; what the inner program defers runs at ITS end
+    from pvlib import run_cases
+    inner = [("f := {|| defer say(\"d1\"); say(\"begin\"); invite!(\"dummy_native\"); defer say(\"d2\"); say(\"end\"); message.len}; say(f())", ["begin", "end", "d1", "d2", "23"]),
+             ("g := {|| defer say(\"e1\"); invite!(\"dummy\"); defer say(\"e2\"); raise Err.new(\"boom\")}; say(nil.try.{|u| g()}.A)", ["e1", "e2", "[nil, <err Err: boom>]"]),
+             ("h := {|| defer say(\"h1\"); say(\"x := 1; defer say(\\\"inner\\\"); x\".eval); defer say(\"h2\"); say(import(\"dummy\").message.len); 7}; say(h())", ["inner", "1", "23", "h1", "h2", "7"]),
+             ("k := {|| defer say(\"k1\"); say([1, 2]@{|i| defer say(\"in#{i}\"); i}); defer say(\"k2\"); 9}; say(k())", ["in1", "in2", "[1, 2]", "k1", "k2", "9"]),
+             ("m := {|| defer say(\"m1\"); invite!(\"dummy\"); invite!(\"dummy_native\"); defer say(\"m2\"); return 5; defer say(\"never\")}; say(m())", ["m1", "m2", "5"]),
+             ("o := {run: m{defer say(\"o1\"); invite!(\"dummy\"); defer say(\"o2\") if true; defer say(\"no\") if false; message.len}}; say(o.run)", ["o1", "o2", "23"])]
+    iout = run_cases([{"id": f"n{k}", "src": src} for k, (src, _) in enumerate(inner)], label="C15 inner programs")
+    for k, (src, want) in enumerate(inner):
+        o = iout[f"n{k}"]
+        got = [e[4:].strip('"') if e.startswith('out:"') else e[4:] for e in o["events"] if e.startswith("out:")]
+        if not o["end"].startswith(("discarded:", "fuel:")) and got != want:
+            ck.reject("C15:inner-program", f"{src!r}: effects {got}, expected {want} (end {o['end'][:80]})", {"src": src, "observed": got, "expected": want, "end": o["end"]})
+    ck.cov["inner_program_bodies"] = len(inner)
     ck.cov["evaluations"] = len(fam)
     ck.cov["distinct_nontrivial"] = nontrivial
     ck.cov["traces_validated_against_impl"] = st["ok"] + st["mismatch"]
